@@ -880,6 +880,12 @@ def check_case(ctx, c, obj, out, stream):
     wf, nopar, mbuild, mref, gaps, mnames, unsupported, msub, drops = out
     if wf != 1 or nopar != 1:
         ctx.tie_failure("harness", "abstraction produced an ill-formed term", {"wf": wf, "no_parsed": nopar}, cj)
+    pg = py_gaps_top(Eexp, c["top"])
+    if pg != set(gaps):
+        ctx.observe("py_gaps_mirror", "differs")
+        ctx.tie_failure("harness", "python mirror of the gap classifier (used by search) differs from the model's", {"python": sorted(pg), "model": sorted(set(gaps))}, cj)
+    else:
+        ctx.observe("py_gaps_mirror", "agrees")
     for g in set(gaps):
         ctx.observe("gap_family", FAMILY_NAME.get(g, g))
     if not gaps:
@@ -1056,3 +1062,220 @@ def prepare_one(c):
     for src, chunk in build_modules([c]):
         prepare(chunk, src)
     return False
+
+
+# ---------------------------------------------------------------- python mirror of the gap classifier (used by search(), cross-checked in explore)
+def fam_of(n) -> int:
+    t = type(n)
+    return 6 if t is ast.GeneratorExp else 8 if t in (ast.Yield, ast.YieldFrom) else 1
+
+
+def _need(req, c):
+    return {fam_of(c)} if prec_of(c) < req else set()
+
+
+def _has_unsafe(s: str) -> bool:
+    return any(ord(ch) < 32 or ord(ch) > 126 or ch in "'\\" for ch in s)
+
+
+def py_gaps(n, direct=False, isub=False, ijoin=False, ifmt=False) -> set:
+    """Mirror of gaps (coq/Model/C03_spec.v) on the expected ast tree."""
+    g1 = lambda c: py_gaps(c, False, isub, ijoin, ifmt)
+    ga = lambda req, c: _need(req, c) | g1(c)
+    t = type(n)
+    out = set()
+    if t is ast.Name:
+        return out
+    if t is ast.Constant:
+        v = n.value
+        if isinstance(v, (float, complex)) and repr(v) in ("inf", "infj"):
+            out.add(12)
+        if isinstance(v, str) and ijoin and not ifmt:
+            out.add(3)
+        return out
+    if t is ast.Attribute:
+        out |= ga(18, n.value)
+        if isinstance(n.value, ast.Constant) and isinstance(n.value.value, int) and not isinstance(n.value.value, bool):
+            out.add(9)
+        return out
+    if t is ast.BinOp:
+        p = BINPREC[type(n.op)]
+        lreq, rreq = (17, 15) if isinstance(n.op, ast.Pow) else (p, p + 1)
+        return ga(lreq, n.left) | ga(rreq, n.right)
+    if t is ast.BoolOp:
+        p = 5 if isinstance(n.op, ast.Or) else 6
+        for v in n.values:
+            out |= ga(p + 1, v)
+        return out
+    if t is ast.UnaryOp:
+        return ga(7 if isinstance(n.op, ast.Not) else 15, n.operand)
+    if t is ast.Compare:
+        out |= ga(9, n.left)
+        for c in n.comparators:
+            out |= ga(9, c)
+        return out
+    if t is ast.Call:
+        req = 0 if (len(n.args) == 1 and not n.keywords and isinstance(n.args[0], ast.GeneratorExp)) else 4
+        out |= ga(18, n.func)
+        for a in n.args:
+            out |= ga(req, a)
+        for k in n.keywords:
+            out |= g1(k)
+        return out
+    if t is ast.keyword:
+        return ga(4, n.value)
+    if t is ast.Subscript:
+        return (_need(18, n.value) | py_gaps(n.value, False, False, ijoin, ifmt) | _need(4, n.slice)
+                | py_gaps(n.slice, True, True, ijoin, ifmt))
+    if t is ast.Slice:
+        for c in (n.lower, n.upper, n.step):
+            if c is not None:
+                out |= ga(4, c)
+        return out
+    if t is ast.Tuple:
+        if isub and not direct:
+            out.add(11)
+        if direct and not n.elts:
+            out.add(7)
+        for c in n.elts:
+            out |= _need(4, c) | py_gaps(c, False, False, ijoin, ifmt)
+        return out
+    if t in (ast.List, ast.Set):
+        for c in n.elts:
+            out |= ga(4, c)
+        return out
+    if t is ast.Dict:
+        for k, v in zip(n.keys, n.values):
+            if k is None:
+                out.add(2)
+                out |= ga(9, v)
+            else:
+                out |= ga(4, k) | ga(4, v)
+        return out
+    if t is ast.IfExp:
+        return ga(5, n.body) | ga(5, n.test) | ga(4, n.orelse)
+    if t is ast.Lambda:
+        po, pk, vp, ko, vk = lambda_params(n.args)
+        if (po and not pk) or (vp and ko):
+            out.add(4)
+        for _, d in po + pk + ko:
+            if d is not None:
+                out |= _need(4, d) | py_gaps(d, False, False, False, False)
+        return out | ga(4, n.body)
+    if t is ast.NamedExpr:
+        return g1(n.target) | ga(4, n.value)
+    if t is ast.Starred:
+        return ga(9, n.value)
+    if t in (ast.ListComp, ast.SetComp, ast.GeneratorExp):
+        out |= ga(4, n.elt)
+        for g in n.generators:
+            out |= g1(g)
+        return out
+    if t is ast.DictComp:
+        out.add(5)
+        out |= ga(4, n.key) | ga(4, n.value)
+        for g in n.generators:
+            out |= g1(g)
+        return out
+    if t is ast.comprehension:
+        out |= ga(9, n.target) | ga(5, n.iter)
+        for c in n.ifs:
+            out |= ga(5, c)
+        return out
+    if t is ast.JoinedStr:
+        for c in n.values:
+            if isinstance(c, ast.Constant):
+                if ifmt or "{" in c.value or "}" in c.value or _has_unsafe(c.value):
+                    out.add(3)
+            else:
+                out |= py_gaps(c, False, isub, True, ifmt)
+        return out
+    if t is ast.FormattedValue:
+        if n.conversion != -1 or n.format_spec is not None:
+            out.add(3)
+        try:
+            txt = ast.unparse(n.value)
+        except Exception:  # noqa: BLE001
+            txt = ""
+        if txt.startswith("{") and prec_of(n.value) >= 5:
+            out.add(3)
+        return out | _need(5, n.value) | py_gaps(n.value, False, isub, ijoin, True)
+    if t is ast.Yield:
+        return ga(4, n.value) if n.value is not None else out
+    if t is ast.YieldFrom:
+        return ga(4, n.value)
+    if t is ast.Await:
+        return {10} | ga(18, n.value)
+    raise ValueError(t.__name__)
+
+
+def py_gaps_top(E, top) -> set:
+    return _need(top, E) | py_gaps(E)
+
+
+def search(ctx):
+    """A tie broke (or the model could not be built): implementation vs CPython only, classified by the python mirror
+    of the gap predicates. The first failing input outside every known family becomes the replay."""
+    streams = [("exhaustive-depth2", exhaustive_cases(ctx, full=False)),
+               ("string-annotations", string_cases(ctx, 1500)),
+               ("random-safe", random_cases(ctx, 3000, True, 6, "data")),
+               ("random-safe-codestrings", random_cases(ctx, 1000, True, 5, "code")),
+               ("random-wild", random_cases(ctx, 1500, False, 5, "data"))]
+    for stream, cases in streams:
+        cases = [c for c in cases if c.get("src") is not None]
+        for src, chunk in build_modules(cases):
+            prepare(chunk, src)
+            try:
+                mod = visit_module(src)
+            except Exception:  # noqa: BLE001
+                mod = None
+            for c in chunk:
+                ctx.evaluations += 1
+                try:
+                    if mod is None:
+                        one = (FUTURE if c["future"] else "") + HEADER + POSITIONS[POS_INDEX[c["pos"]]][1].format(k=c["k"], e=c["src"])
+                        obj = impl_at(visit_module(one), c["pos"], c["k"])
+                    else:
+                        obj = impl_at(mod, c["pos"], c["k"])
+                except Exception as e:  # noqa: BLE001
+                    if not (c["pos"] == "decorator" and calls_literal(c["E"]) and isinstance(e, AttributeError)):
+                        ctx.property_failure(case_json(c), {"visit raised": type(e).__name__ + ": " + str(e)[:200]})
+                        return
+                    continue
+                ok, detail = direct_eval(obj, c["Eexp"], c["top"])
+                if ok:
+                    continue
+                gaps = py_gaps_top(c["Eexp"], c["top"])
+                fam = pick_family(gaps)
+                if set(detail) == {"names"}:
+                    fam = 10 if 10 in gaps else 3 if 3 in gaps else None
+                if fam is None:
+                    ctx.property_failure(case_json(c), detail)
+                    return
+        if ctx.elapsed() > 900:
+            return
+
+
+def replay(ctx, data):
+    case = data.get("failing_input") or {}
+    if "expression" not in case:
+        print("replay names no input:", data.get("no_longer_checks"))
+        return 0
+    c = {"src": case["expression"], "pos": case["position"], "future": case["future_annotations"], "label": "replay"}
+    for src, chunk in build_modules([c]):
+        prepare(chunk, src)
+        print(src)
+        try:
+            obj = impl_at(visit_module(src), c["pos"], c["k"])
+        except Exception as e:  # noqa: BLE001
+            print("griffe.visit raised:", type(e).__name__, e)
+            return 0
+        print("griffe str   :", None if obj is None else str(obj))
+        print("expected tree:", dump(c["Eexp"]))
+        print("reparsed     :", None if obj is None else parse_back(str(obj), c["top"]))
+        print("direct check :", direct_eval(obj, c["Eexp"], c["top"]))
+        print("python gaps  :", sorted(py_gaps_top(c["Eexp"], c["top"])))
+        if ctx.driver is not None:
+            out = ctx.model([c["query"]])[0]
+            print("model        :", {"build": out[2], "ref": out[3], "gaps": out[4]})
+    return 0
